@@ -287,8 +287,8 @@ def body_spelling(ctx: H.BaseCtx):
                 if not isinstance(r, numpoly.ndpoly):
                     ctx.fail("spelling", "%s (%s) returned %s" % (label, sp, type(r).__name__))
                 ctx.expect_model(r, exp, "%s via %s" % (label, sp))
-        if not ctx.symbolic:
-            # native only: every *carrier type* a number or array-like partner can arrive in (the protocol methods see these types)
+        if not ctx.symbolic and H.NATIVE_RUN_INDEX == 0:
+            # (value-independent: once per case)  native only: every *carrier type* a number or array-like partner can arrive in (the protocol methods see these types)
             class _ArrayLike:
                 def __array__(self, dtype=None, copy=None):
                     return numpy.asarray([2, 3] if a.shape else 2, dtype=dtype)
@@ -323,7 +323,8 @@ def body_spelling(ctx: H.BaseCtx):
             with numpy.errstate(all="ignore"):
                 for k, pair in enumerate(SP.PAIRS if case.get("special_values") else []):
                     lo, hi = pair
-                    polys = [lo + hi * q0, numpoly.polynomial([lo, hi * q0]), hi * q0 * q1 + lo * q1 + 0.25, numpoly.polynomial([lo * q0 + hi, q1])]
+                    polys = [lo + hi * q0, numpoly.polynomial([lo, hi * q0]), hi * q0 * q1 + lo * q1 + 0.25, numpoly.polynomial([lo * q0 + hi, q1]),
+                             0.1 + 0.1 * q0 + 0.7 * q0 ** 2, lo * 1e-154 + 1.1e154 * q0 - 1.2e154 * q0 ** 2, 0.3 + q0 / 3.0 + 2.7 * q0 ** 2 + 0.1 * q1]
                     for pi, sp in enumerate(polys):
                         groups = {
                             "square": [("numpoly.power(p, 2)", lambda: numpoly.power(sp, 2)), ("p ** 2", lambda: sp ** 2), ("numpy.power(p, 2)", lambda: numpy.power(sp, 2)),
